@@ -38,6 +38,7 @@ LAYOUTS = {
     "2lines": [((0,), (0, 1)), ((1,), (1,))],
     "2lines-shared": [((0, 1), (0,)), ((2,), (0, 1))],
     "3lines": [((0,), (0,)), ((1,), (1,)), ((2,), (0, 1))],
+    "shared-multi": [((0,), (0,)), ((1, 2), (0, 1))],          # a multi-package line re-using an earlier tag
 }
 
 
@@ -83,10 +84,11 @@ def facet(t):
     return t.split(":")[0] if ":" in t and not t.startswith(":") else t
 
 
-NOPS = 13
+NOPS = 14
 OPNAMES = ["insert", "filter_packages", "filter_packages_copy", "filter_tags", "filter_tags_copy",
            "filter_packages_tags", "filter_packages_tags_copy", "choose_packages", "choose_packages_copy",
-           "facet_collection", "reverse", "reverse_copy", "copy"]
+           "facet_collection", "reverse", "reverse_copy", "copy", "read-again"]
+REREAD = [["b: g::a\n"], ["a, x-1: h\n", "ab: f::b, h\n"], []]
 
 
 def apply_op(params, db, model, op, x, y):
@@ -141,6 +143,17 @@ def apply_op(params, db, model, op, x, y):
                 m.setdefault(t, set()).add(p)
         reach(params, "reverse")
         return r, m
+    if op == 13:
+        # reading another collection into the same object replaces the previous content
+        lines = REREAD[x % len(REREAD)]
+        db.read(iter(lines))
+        m = {}
+        for l in lines:
+            ps, ts = l.strip().split(": ")
+            for p in ps.split(", "):
+                m[p] = set(ts.split(", "))
+        reach(params, "reread")
+        return db, m
     r = db.copy()
     return r, {p: set(ts) for p, ts in model.items()}
 
@@ -181,6 +194,8 @@ def h_db(params, p0: int, p1: int, p2: int, t0: int, t1: int,
                 assume(y == 0)
             if op in (9, 10, 11, 12):
                 assume(x == 0)
+            if op == 13:
+                assume(x < 3)
             if "ops" in params:
                 assume(op in params["ops"])
             if k == 0 and "first" in params:
@@ -201,15 +216,15 @@ def h_db(params, p0: int, p1: int, p2: int, t0: int, t1: int,
 def partitions(tier, seed):
     P = []
     q = tier == "quick"
-    groups = [("ins", [0]), ("filt", [1, 2, 3, 4, 5, 6]), ("choose", [7, 8]), ("derive", [9, 10, 11, 12])]
-    for lay in (("empty", "1x2", "2x1", "2lines") if q else LAYOUTS):
+    groups = [("ins", [0]), ("filt", [1, 2, 3, 4, 5, 6]), ("choose", [7, 8]), ("derive", [9, 10, 11, 12, 13])]
+    for lay in (("empty", "1x2", "2x1", "2lines", "shared-multi") if q else LAYOUTS):
         for gname, ops in groups:
             P.append(dict(name="step1/%s/%s" % (lay, gname), harness="h_db", params=dict(layout=lay, steps=1, ops=ops, free=1 if q else 3),
                           budget=100 if q else 900,
                           reach=(GROUP_REACH[gname] if lay != "empty" or gname == "ins" else []) + (["facet"] if gname == "derive" and lay in ("1x2", "1x1") else []),
                           bounds="layout %s, one operation of group %s, all name choices" % (lay, gname)))
     for lay in (("1x1", "notags") if q else ("1x1", "1x2", "2x1", "notags", "2lines")):
-        for gname, ops in ([("ins", [0]), ("filt-a", [1, 2, 3]), ("filt-b", [4, 5, 6]), ("choose", [7, 8]), ("facet", [9]), ("rev", [10, 11, 12])]):
+        for gname, ops in ([("ins", [0]), ("filt-a", [1, 2, 3]), ("filt-b", [4, 5, 6]), ("choose", [7, 8]), ("facet", [9]), ("rev", [10, 11, 12, 13])]):
             P.append(dict(name="step2/%s/%s-first" % (lay, gname), harness="h_db",
                           params=dict(layout=lay, steps=2, first=ops, free=1 if q else 2), budget=100 if q else 1800, reach=[],
                           bounds="layout %s, two operations (first from the group, second any code with operands x<2, y<4)" % lay))
